@@ -54,8 +54,146 @@ Section Extract.
       let '(st2, outs) := r' in
       Ok (st2, out :: outs)
     end.
+
+  (* The same two loops as the code stands since the repair "decoding loops spin forever when
+     the stream ends before its declared size" (py7zr.py, MAX_STALLED_ROUNDS = 16):
+     Worker.decompress counts the consecutive rounds that deliver nothing and take no input
+     and raises Bad7zFile at the 17th.  [failed] marks a stage that has raised (the AES stage
+     of Toy.v); a run on which a stage raised ends with Err EOther. *)
+  Variable failed : dst -> bool.
+
+  Fixpoint gworker (fuel : nat) (st : dstate dst) (size mb : Z) (sched : list nat) (stalled : Z)
+    : res (dstate dst * bytes) :=
+    if size >? 0 then
+      match fuel with
+      | O => Err EFuel
+      | S fuel' =>
+        do r <- decompress dstep st (Z.min size mb) (sched_hd st sched);
+        let '(st', tmp) := r in
+        if existsb failed (stages st') then Err EOther
+        else if zlen tmp >? 0 then
+          if size - zlen tmp <=? 0 then Ok (st', tmp)
+          else
+            do r' <- gworker fuel' st' (size - zlen tmp) mb (tl sched) 0;
+            let '(st'', out) := r' in
+            Ok (st'', tmp ++ out)
+        else
+          let idle := consumed st' =? consumed st in
+          let stalled' := if idle then stalled + 1 else stalled in
+          if idle && (stalled' >? 16) then Err EBad7z
+          else
+            do r' <- gworker fuel' st' size mb (tl sched) stalled';
+            let '(st'', out) := r' in
+            Ok (st'', tmp ++ out)
+      end
+    else Ok (st, []).
+
+  Fixpoint gextract (fuel : nat) (st : dstate dst) (sizes : list Z) (mb : Z)
+           (scheds : list (list nat)) : res (dstate dst * list bytes) :=
+    match sizes with
+    | [] => Ok (st, [])
+    | size :: sizes' =>
+      do r <- gworker fuel st size mb (hd [] scheds) 0;
+      let '(st1, out) := r in
+      do r' <- gextract fuel st1 sizes' mb (tl scheds);
+      let '(st2, outs) := r' in
+      Ok (st2, out :: outs)
+    end.
+
+  (* the guard only ever turns a run into an error: whenever the guarded loop returns, the
+     loop of Decomp.v returns the same, so every theorem about worker_decompress /
+     extract_members (partial correctness) holds of the guarded loops *)
+  Lemma gworker_ok (fuel : nat) : forall st size mb sched stalled r,
+    gworker fuel st size mb sched stalled = Ok r ->
+    worker_decompress dstep fuel st size mb sched = Ok r.
+  Proof.
+    induction fuel as [|fuel IH]; intros st size mb sched stalled r H; simpl in *.
+    - destruct (size >? 0); [discriminate|exact H].
+    - destruct (size >? 0) eqn:Es; [|exact H].
+      destruct (decompress dstep st (Z.min size mb) (sched_hd st sched)) as [[st' tmp]|e]; [|discriminate].
+      cbn [bind] in *. destruct (existsb failed (stages st')); [discriminate|].
+      destruct (zlen tmp >? 0).
+      + destruct (size - zlen tmp <=? 0); [exact H|].
+        destruct (gworker fuel st' (size - zlen tmp) mb (tl sched) 0) as [[st'' out]|e] eqn:Hg; [|discriminate].
+        rewrite (IH _ _ _ _ _ _ Hg). exact H.
+      + destruct (size <=? 0) eqn:El; [apply Z.gtb_lt in Es; apply Z.leb_le in El; lia|].
+        destruct ((consumed st' =? consumed st) &&
+                  ((if consumed st' =? consumed st then stalled + 1 else stalled) >? 16)); [discriminate|].
+        destruct (gworker fuel st' size mb (tl sched) (if consumed st' =? consumed st then stalled + 1 else stalled))
+          as [[st'' out]|e] eqn:Hg; [|discriminate].
+        rewrite (IH _ _ _ _ _ _ Hg). exact H.
+  Qed.
+
+  Lemma gextract_ok (fuel : nat) (mb : Z) : forall sizes st scheds r,
+    gextract fuel st sizes mb scheds = Ok r -> extract_members fuel st sizes mb scheds = Ok r.
+  Proof.
+    induction sizes as [|size sizes IH]; intros st scheds r H; simpl in *; [exact H|].
+    destruct (gworker fuel st size mb (hd [] scheds) 0) as [[st1 out]|e] eqn:Hw; [|discriminate].
+    rewrite (gworker_ok _ _ _ _ _ _ _ Hw). cbn [bind] in *.
+    destruct (gextract fuel st1 sizes mb (tl scheds)) as [[st2 outs]|e] eqn:Hx; [|discriminate].
+    rewrite (IH _ _ _ Hx). exact H.
+  Qed.
+
+  (* ... and it does what it was added for: from a state in which every stage is quiet on empty
+     input and the packed stream is exhausted, the guarded loop raises Bad7zFile after 17 rounds
+     instead of spinning (Decomp.worker_spins) *)
+  Section Guard.
+    Variable quiet : dst -> Prop.
+    Hypothesis quiet_step : forall s ml,
+        quiet s -> snd (dstep s [] ml) = [] /\ quiet (fst (dstep s [] ml)).
+    Hypothesis quiet_ok : forall s, quiet s -> failed s = false.
+
+    Definition ended (st : dstate dst) : Prop :=
+      stuck quiet st /\ (fp_rest st = [] \/ input_size st <= consumed st).
+
+    Lemma ended_step (st : dstate dst) (ml : Z) (rd : nat) :
+      ended st -> 0 < ml ->
+      exists st', decompress dstep st ml rd = Ok (st', []) /\ ended st' /\ consumed st' = consumed st.
+    Proof.
+      intros [Hst Hend] Hml.
+      destruct (stuck_step dst dstep quiet quiet_step st ml rd Hst Hml) as (st' & Hd & Hst').
+      exists st'. split; [exact Hd|].
+      destruct Hst as (_ & _ & _ & Hun & Hpos & _).
+      assert (Hp : 0 <= pos st <= zlen (buf st)) by (pose proof (zlen_nonneg (buf st)); lia).
+      destruct (decompress_spec dst dstep st st' ml rd [] Hp Hun Hd)
+        as (data & tmp & _ & Hfp & Hcons & Hdl & _ & His & _).
+      assert (Hdata : data = []).
+      { destruct Hend as [Hnil|Hle].
+        - rewrite Hnil in Hfp. symmetry in Hfp. apply app_eq_nil in Hfp. apply Hfp.
+        - apply zlen_le0_nil. lia. }
+      subst data. rewrite zlen_nil in Hcons. split; [|lia].
+      split; [exact Hst'|]. destruct Hend as [Hnil|Hle]; [left|right].
+      - rewrite Hnil in Hfp. simpl in Hfp. now symmetry.
+      - lia.
+    Qed.
+
+    Lemma ended_not_failed (st : dstate dst) : ended st -> existsb failed (stages st) = false.
+    Proof.
+      intros [(Hq & _) _]. induction Hq as [|s ss Hs _ IH]; [reflexivity|].
+      simpl. now rewrite (quiet_ok s Hs), IH.
+    Qed.
+
+    Theorem gworker_raises (n : nat) : forall (fuel : nat) (st : dstate dst) (size mb : Z)
+                                              (sched : list nat) (stalled : Z),
+      ended st -> 0 < size -> 0 < mb -> stalled = 16 - Z.of_nat n -> (n < fuel)%nat ->
+      gworker fuel st size mb sched stalled = Err EBad7z.
+    Proof.
+      induction n as [|n IH]; intros fuel st size mb sched stalled He Hsz Hmb Hst Hf;
+        (destruct fuel as [|fuel]; [lia|]); cbn [gworker];
+        (destruct (size >? 0) eqn:Es; [|lia]);
+        (destruct (ended_step st (Z.min size mb) (sched_hd st sched) He ltac:(lia)) as (st' & Hd & He' & Hc));
+        rewrite Hd; cbn [bind]; rewrite (ended_not_failed st' He');
+        change (zlen [] >? 0) with false; cbv iota; rewrite Hc, Z.eqb_refl; cbn [andb].
+      - replace (stalled + 1 >? 16) with true by lia. reflexivity.
+      - replace (stalled + 1 >? 16) with false by lia.
+        rewrite (IH fuel st' size mb (tl sched) (stalled + 1) He' Hsz Hmb ltac:(lia) ltac:(lia)).
+        reflexivity.
+    Qed.
+  End Guard.
 End Extract.
 Arguments extract_members {dst}.
+Arguments gworker {dst}.
+Arguments gextract {dst}.
 
 (* consecutive slices of the given sizes *)
 Fixpoint split_sizes (l : bytes) (sizes : list Z) : list bytes :=
@@ -490,7 +628,18 @@ Example toy_roundtrip_ex :
   end.
 Proof. vm_compute. split; reflexivity. Qed.
 
+(* the guard, concretely: declared unpack size 10, the stream holds 3 bytes (the witness on which
+   Decomp.toy_worker_spins shows the unguarded loop spinning) *)
+Example toy_guard_ex :
+  (exists st, gworker toy_dstep (fun _ => false) 30 (init_state [toy_st 0 0 []] [10] 3 100 [1; 2; 3]) 3 100 [] 0
+              = Ok (st, [1; 2; 3])) /\
+  gworker toy_dstep (fun _ => false) 30 (init_state [toy_st 0 0 []] [10] 3 100 [1; 2; 3]) 10 100 [] 0 = Err EBad7z /\
+  gworker toy_dstep (fun _ => false) 17 (init_state [toy_st 0 0 []] [10] 3 100 [1; 2; 3]) 10 100 [] 0 = Err EFuel.
+Proof. split; [eexists; vm_compute; reflexivity|]. split; vm_compute; reflexivity. Qed.
+
 Print Assumptions roundtrip_chain.
+Print Assumptions gworker_ok.
+Print Assumptions gworker_raises.
 Print Assumptions roundtrip_single_stage.
 Print Assumptions aes_enc_contract.
 Print Assumptions aes_codec_inverse.
